@@ -10,6 +10,8 @@ Nothing of the repository is imported or executed: the interpreter walks syntax 
 """
 from __future__ import annotations
 
+import collections as _collections
+
 import ast
 from dataclasses import dataclass, field
 from typing import Any, Callable, Dict, List, Optional, Sequence, Tuple
@@ -727,12 +729,18 @@ class Interp:
         self.cur_mod = f.module
         self.depth += 1
         self.call_stack.append(f.qualname)
+        from . import values as _V
+
+        saved_gm = _V.GRAD_MODE[0]
+        if any(isinstance(d_, str) and d_.startswith("ctx:") and d_.split(".")[-1] in ("no_grad", "inference_mode") for d_ in f.decorators):
+            _V.GRAD_MODE[0] = saved_gm + 1  # `@torch.no_grad()` on the function
         try:
             kind, val = self.exec_stmts(list(f.node.body), env, f.module, lambda e: ("return", None))
         finally:
             self.depth -= 1
             self.call_stack.pop()
             self.cur_mod = saved_mod
+            _V.GRAD_MODE[0] = saved_gm
         return val
 
     # ------------------------------------------------------------------ generators (lazy, as coroutines)
@@ -1518,6 +1526,18 @@ class Interp:
                 return ("raise", None)
             return box[0]
         self.log("with", st, ctx=cm)
+        gm_ = _grad_mode_of(cm)
+        if gm_ is not None:
+            # torch.no_grad() / inference_mode() / set_grad_enabled(False) (or enable_grad()): tensors created in the
+            # block carry the grad-mode typestate
+            from . import values as _V
+
+            saved_ = _V.GRAD_MODE[0]
+            _V.GRAD_MODE[0] = (saved_ + 1) if gm_ is False else 0
+            try:
+                return self._exec_with(st, idx + 1, env, mi)
+            finally:
+                _V.GRAD_MODE[0] = saved_
         m_enter, m_exit = self.dunder(cm, "__enter__"), self.dunder(cm, "__exit__")
         entered = self.call_function(m_enter, [], {}, st) if m_enter is not None else cm
         if entered is BOTTOM:
@@ -2186,6 +2206,12 @@ class Interp:
             if isinstance(a, (bool,)) or isinstance(b, bool):
                 r = a is b
                 return (not r) if neg else r
+            if isinstance(a, str) and isinstance(b, str) and a == b:
+                # identity of two equal strings is an accident of interning (a tag that went through pickle is an
+                # equal but different object): neither outcome can be relied on
+                c = T("is", (T("strobj", (a, "lhs")), T("strobj", (b, "rhs"))))
+                self.log("string-identity", node, value=a)
+                return T("not", (c,)) if neg else c
             if isinstance(a, Obj) and isinstance(b, Obj) and not a.open_attrs and not b.open_attrs:
                 return (a is b) != neg
             for s_, o_ in ((a, b), (b, a)):
@@ -2429,7 +2455,8 @@ class Interp:
             if attr == "numel":
                 return _Builtin("numel", lambda it, a, k, nd, s=v: num(s.numel()))
             raise Unsupported(f"Size.{attr}")
-        if isinstance(v, (dict, list, str, set)) and not hasattr(type(v), attr) and not hasattr(dict if isinstance(v, dict) else type(v), attr):
+        if isinstance(v, (dict, list, str, set)) and not hasattr(type(v), attr) and not hasattr(dict if isinstance(v, dict) else type(v), attr) and not (isinstance(v, list) and hasattr(_collections.deque, attr)) and not (isinstance(v, dict) and (hasattr(_collections.OrderedDict, attr) or hasattr(_collections.Counter, attr))) and not (isinstance(v, set) and hasattr(frozenset, attr)):
+            # (a deque is modelled as a list, OrderedDict / Counter / defaultdict as dicts)
             self.log("raise", node, exc="AttributeError")
             return BOTTOM
         if isinstance(v, dict):
@@ -3353,6 +3380,29 @@ def _not(c: Any) -> Any:
     if isinstance(c, T) and c.op == "not":
         return c.args[0]
     return T("not", (c,))
+
+
+def _grad_mode_of(cm: Any) -> Optional[bool]:
+    """False for a context manager that switches autograd recording off, True for one that switches it on."""
+    t = _term(cm) if isinstance(cm, (TV, Obj)) else None
+    if not (isinstance(t, T) and t.op == "call" and isinstance(t.args[0], str)):
+        return None
+    name = t.args[0]
+    short = name.split(".")[-1]
+    if not name.startswith("torch"):
+        return None
+    if short in ("no_grad", "inference_mode"):
+        a = dict(t.args[1]) if len(t.args) > 1 and isinstance(t.args[1], tuple) else {}
+        if short == "inference_mode" and a.get("mode") is False:
+            return None
+        return False
+    if short == "enable_grad":
+        return True
+    if short == "set_grad_enabled":
+        a = dict(t.args[1]) if len(t.args) > 1 and isinstance(t.args[1], tuple) else {}
+        v = a.get("mode", next(iter(a.values()), None))
+        return v if isinstance(v, bool) else None
+    return None
 
 
 def _is_cond(v: Any) -> bool:
